@@ -310,6 +310,10 @@ class LazyDI(DI):
 		Returns:
 			True = 解決できる
 		"""
+		# XXX Union等の参照名を持たない型はシンボルになり得ない
+		if not hasattr(self._acceptable_symbol(symbol), '__qualname__'):
+			return False
+
 		return self.__can_resolve(self.__symbolize(symbol))
 
 	def __can_resolve(self, symbol_path: str) -> bool:
